@@ -68,9 +68,9 @@ func (s *memoryNamespaceManager) Namespaces(_ context.Context) ([]*namespace.Nam
 }
 
 func (s *memoryNamespaceManager) ShouldReload(newValue interface{}) bool {
-	s.RLock()
-	defer s.RUnlock()
-
+	// Namespaces takes the read lock itself. Holding it here as well is a
+	// recursive read lock, which deadlocks as soon as a writer (set) queues up
+	// between the two acquisitions.
 	nn, _ := s.Namespaces(context.Background())
 
 	return !reflect.DeepEqual(newValue, nn)
